@@ -254,7 +254,10 @@ def api_case(acc: Acc, case):
         except InverterError:
             pass
     if before is None:
-        raise harness.HarnessError("configuration never settles: %r" % (cfg,))
+        # blocks refused with exception code 2 (ILLEGAL DATA ADDRESS) must be recognised as unsupported: the fallbacks settle
+        # within two polls on a correct library
+        return [("C08|api|%s|illegal-data-address-not-recognised" % cfg["family"], "the inverter refuses %s with exception code 2, yet three "
+                 "polls in a row fail: the 'ILLEGAL DATA ADDRESS' refusal is not recognised as 'block not supported'" % (cfg.get("refuse"),), case)]
     fault.n = 0
     want, verbatim = expected_reason(code)
     fam = cfg["family"]
